@@ -26,7 +26,10 @@ MODE_FLAGS = {
 }
 CBMC_BASE = ['--unwinding-assertions', '--undefined-shift-check',
              '--drop-unused-functions', '--no-malloc-may-fail', '--no-standard-checks',
-             '--bounds-check', '--pointer-check', '--div-by-zero-check', '--pointer-primitive-check']
+             '--bounds-check', '--pointer-check', '--div-by-zero-check', '--pointer-primitive-check',
+             # heap blocks are byte arrays; cbmc's default field sensitivity stops at 64 elements, after which nothing stored in a bigger
+             # block constant-propagates (kind tags of Values in a 96-byte array, hash-table blocks) and symbolic execution explodes
+             '--max-field-sensitivity-array-size', '512', '--object-bits', '10']
 
 _lock = threading.Lock()
 
